@@ -63,7 +63,8 @@ type ColSpec struct {
 	Shape   ValueShape
 	Missing float64 // probability that a row lacks the column
 	Card    int
-	Hostile bool // values drawn from the hostile pool
+	Hostile bool     // values drawn from the hostile pool
+	Pool    []string // if set, values are drawn from this pool
 }
 
 type Dataset struct {
@@ -86,9 +87,19 @@ type DatasetOpts struct {
 	NoMissing   bool
 	EmptyRows   bool // sprinkle fully empty rows and a trailing block of them
 	Shapes      []ValueShape
+	// Concat builds a dataset whose column names are prefixes of each other and whose values complete them, so that
+	// different (column,value) pairs have equal concatenations ("a"+"bc" = "ab"+"c"): any key encoding that does not
+	// keep column and value apart confuses them.
+	Concat bool
 }
 
+var concatCols = []string{"a", "ab", "abc", "b", "", "ab c", "a\x00"}
+var concatVals = []string{"", "a", "b", "c", "bc", "abc", "ab", " c", "b c", "\x00b", "\x00"}
+
 func value(rng *rand.Rand, spec ColSpec, i, n int) string {
+	if len(spec.Pool) > 0 {
+		return spec.Pool[rng.Intn(len(spec.Pool))]
+	}
 	raw := func(k int) string {
 		if spec.Hostile {
 			// map small integers onto distinct hostile strings, then fall back to numbered ones
@@ -140,6 +151,16 @@ func MakeDataset(rng *rand.Rand, id string, o DatasetOpts) *Dataset {
 	nc := 1 + rng.Intn(o.MaxCols)
 	names := map[string]bool{}
 	var specs []ColSpec
+	if o.Concat {
+		for _, c := range concatCols {
+			if strings.Contains(c, "\x00") {
+				continue // NUL in column names is excluded by the properties
+			}
+			specs = append(specs, ColSpec{Name: c, Shape: ShapeCategorical, Pool: concatVals, Missing: 0.3})
+			names[c] = true
+		}
+		nc = len(specs)
+	}
 	for len(specs) < nc {
 		var name string
 		if o.HostileCols && rng.Intn(3) != 0 {
